@@ -1,5 +1,5 @@
 """C19 — UDP flows are sticky, isolated, bounded and torn down once."""
-import os, re
+import os, re, sys
 import vlib
 from vlib import Case
 
@@ -65,6 +65,20 @@ def translate():
         fails.append("flow.rs responses_exhausted changed")
     if not re.search(r"let idle_deadline = now \+ config\.front_timeout;", f):
         fails.append("flow.rs UdpFlow::new: deadline is no longer now + front_timeout")
+    # the shell side of the two contracts the theorems rely on (lib/src/udp.rs)
+    sh = _src("lib/src/udp.rs")
+    t = sh[sh.index("fn timeout(&mut self, token: Token)"):]
+    t = t[:t.index("fn close(&mut self)")]
+    if not re.search(r"handle_timeout\(now\);\s*self\.drain_outputs\(now\);", t):
+        fails.append("udp.rs timeout(): no longer handle_timeout(now) followed by drain_outputs(now) (the re-emitted ArmTimer must reach arm_timer)")
+    a = sh[sh.index("fn arm_timer(&mut self"):sh.index("fn on_close_flow(&mut self")]
+    if "cancel_timeout(&old)" not in a or not re.search(r"self\.timer_handle = Some\(timer\.set_timeout\(delay, self\.listener_token\)\);", a):
+        fails.append("udp.rs arm_timer: no longer 'cancel the previous one-shot timer, set a new one at the deadline'")
+    c = sh[sh.index("fn on_close_flow(&mut self"):sh.index("fn record_metric(")]
+    if not re.search(r"let other = if key == client \{", c) or c.count("self.client_key_to_flow.remove(") < 2:
+        fails.append("udp.rs on_close_flow: the shadow flow-table entry is no longer looked up under both affinity modes (fix d875ae5)")
+    if not re.search(r"recv_buf: vec!\[0u8; max_rx\.saturating_add\(1\)\.max\(1\)\]", sh):
+        fails.append("udp.rs: recv_buf is no longer max_rx + 1 bytes (an oversized datagram would be forwarded truncated)")
     # slab free-list discipline
     import glob
     cands = sorted(glob.glob(os.path.expanduser("~/.cargo/registry/src/*/slab-0.4.*/src/lib.rs")))
@@ -283,7 +297,14 @@ def extra_stage(tier, rng, work):
     the quick tier, a larger one in the thorough tier, where the hand-written scenarios (idle reaper: hung about
     every other run before fix 8526f1a; affinity flips under live flows: aborted debug builds before fix d875ae5)
     also run on the build with debug assertions."""
-    cases = e2e_corpus() + [e2e_case(rng, "e%d" % i) for i in range(120 if tier == "thorough" else 24)]
+    replay = sys.argv[sys.argv.index("--replay") + 1] if "--replay" in sys.argv[:-1] else None
+    if replay:
+        # ./check C19 --replay <file>: black-box scenarios (first op `setup`) are replayed here
+        cases = [c for c in vlib.parse_cases(open(replay).read()) if c.ops and c.ops[0][0] == "setup"]
+        if not cases:
+            return dict(coverage=dict(e2e_cases=0))
+    else:
+        cases = e2e_corpus() + [e2e_case(rng, "e%d" % i) for i in range(120 if tier == "thorough" else 24)]
     if tier == "thorough" and os.path.exists(vlib.harness_path("c19e", "checked")):
         couts, _ = vlib.run_harness("c19e", e2e_corpus(), os.path.join(work, "e2e_checked"), "checked", timeout=600, shards=3)
     else:
